@@ -29,7 +29,8 @@ RULES = {
 }
 PROBES = ["skp_words_sent", "postponed_by_burst", "two_pairs_back_to_back", "three_or_more_sets_pending", "zero_word_inside_burst",
           "idle_gap_of_zero_words", "single_filler_slot_used", "com_word_in_burst", "layer_runs", "scrambling_enabled_runs",
-          "long_runs_over_3000_words", "reset_cycle_phantom_word"]
+          "long_runs_over_3000_words", "reset_cycle_phantom_word",
+          "link_layer_runs", "link_layer_skp_permitted_cycles", "link_layer_non_idle_words"]
 META = {
     "components_real": ["luna.gateware.usb.usb3.physical.ctc.CTCSkipInserter",
                         "luna.gateware.usb.usb3.physical.layer.USB3PhysicalLayer (TX path: Scrambler, CTCSkipInserter; the rest elaborated "
@@ -52,7 +53,18 @@ INTERVAL = usb3.SKP_SYMBOL_INTERVAL
 
 
 # ------------------------------------------------------------------------------------------------
+LINK_EVERY = 40         # every 40th run (index % 40 == 11): the permission signal as the complete link layer generates it
+
+
 def gen(rng, tier, index):
+    if index % LINK_EVERY == 11:
+        # Link-layer clause ("SKPs only in place of idle filler"): the complete USB3LinkLayer (LTSSM, training sets, link
+        # commands, header transmitter, arbiter) is brought up and exercised by the C38 link-partner actor; this check only
+        # adds a passive monitor on what the link layer hands the physical layer.
+        from checks import c38
+        scn = c38.gen_link_layer(rng, "quick", 2)
+        scn["config"]["c33_link_layer"] = True
+        return scn
     kind = rng.choice(["inserter", "layer", "layer"])
     scramble = 1 if (kind == "layer" and rng.random() < 0.75) else 0
     long_run = rng.random() < 0.05
@@ -355,7 +367,49 @@ class _Actor:
         return False
 
 
+def _run_link_layer(scn):
+    from checks import c38
+    from engines import usb3_link_layer as LL
+    bench = LL.link_layer_bench()
+    viol = Violations()
+    probes = {p: 0 for p in PROBES}
+    sub_viol = Violations()                       # the partner actor's own (C38) verdicts are not this check's business
+    sub_probes = {p: 0 for p in c38.PROBES}
+    host = LL.LinkLayerHost(scn, sub_viol, sub_probes, {}, c38.RULEMAP)
+
+    class SkipPermissionMonitor:
+        def __init__(self):
+            self.allowed = self.busy_words = 0
+
+        def observe(self, t, o):
+            idle_word = bool(o["tx_valid"]) and o["tx_data"] == 0 and o["tx_ctrl"] == 0
+            if o["can_send_skp"]:
+                self.allowed += 1
+                if not idle_word and not viol:
+                    viol.add("C33.only_idle_replaced", t, f"link layer: can_send_skp is high in cycle {t} while it presents the word "
+                             f"{o['tx_data']:08x}/{o['tx_ctrl']:x} (valid={o['tx_valid']}) to the physical layer: that is not "
+                             f"logical-idle filler, so the transmit CTC may replace packet / command / training data by SKPs",
+                             dut="link_layer", word="ctrl" if o["tx_ctrl"] else "data")
+            elif o["tx_valid"] and not idle_word:
+                self.busy_words += 1
+            return False
+
+    mon = SkipPermissionMonitor()
+    cap = c38.ll_max_cycles(scn)
+    log = bench.run([host, mon], cap, init=dict(LL.INIT_PINS))
+    if not host.done and not host.dead and not viol:
+        raise RuntimeError(f"link-partner script did not finish within {cap} cycles (phase {host.phase})")
+    probes["link_layer_runs"] = 1
+    probes["link_layer_skp_permitted_cycles"] = mon.allowed
+    probes["link_layer_non_idle_words"] = mon.busy_words
+    sig = hashlib.blake2b(repr(("link_layer", sorted(log.fsm_vectors), host.exits)).encode(), digest_size=8).hexdigest()
+    return {"violations": viol.items, "cycles": log.cycles, "faults": {"link_exit": len(host.exits)}, "probes": probes, "sig": sig,
+            "nontrivial": mon.allowed > 0 and mon.busy_words > 0, "digest": log.digest, "fsm": len(log.fsm_vectors)}
+
+
 def run(scn):
+    if scn["config"].get("c33_link_layer"):
+        return _run_link_layer(scn)
     kind = scn["config"]["dut"]
     bench = _bench(kind)
     viol = Violations()
